@@ -236,6 +236,8 @@ class Evaluator:
         self.bool_registry: Dict[str, G] = {}        # boolean masks that were turned into opaque index atoms
         self.summarise_loops = True                  # exact loop summaries (seqdom) instead of havoc where possible
         self.gen_depth = 0
+        self.record_divisions = False
+        self.divisions: List[Any] = []
         self.range_registry: Dict[Any, Any] = {}
         self.summary_log: List[Tuple[int, str]] = []
         self.summary_assumptions: set = set()
@@ -452,6 +454,8 @@ class Evaluator:
                 return rx.mul(ry)
             if op == "/":
                 if ry.is_zero():
+                    if self.record_divisions:
+                        return self.fresh_sym("div0")       # recorded as a division whose divisor is 0 on this path
                     raise Unsupported("division by literal zero")
                 return rx.div(ry)
             if op == "**":
@@ -920,6 +924,13 @@ class Frame:
                 return g_and(a, b) if not isinstance(e.op, ast.BitOr) else g_or(a, b)
             if op is None:
                 return anf.opaque("binop:" + type(e.op).__name__, ev.to_rat(a), ev.to_rat(b))
+            if op == "/" and ev.record_divisions:
+                # the divisor, per case, with the condition under which this division is evaluated: the normal form cancels
+                # common factors, so "the divisor is not zero" has to be kept as a side condition of the quotient
+                for g_, d_ in cases_of(b):
+                    gg_ = g_and(self.cur_guard, g_)
+                    if gg_.kind != "false" and isinstance(d_, (Rat, int, float, Fraction)):
+                        ev.divisions.append((gg_, ev.to_rat(d_), e))
             return ev.arith(op, a, b)
         if isinstance(e, ast.UnaryOp):
             v = self.expr(e.operand, env)
@@ -950,8 +961,14 @@ class Frame:
             return self.compare(e, env)
         if isinstance(e, ast.IfExp):
             c = self.cond(e.test, env)
-            a = self.expr(e.body, env)
-            b = self.expr(e.orelse, env)
+            keep_ = self.cur_guard
+            try:
+                self.cur_guard = g_and(keep_, c)
+                a = self.expr(e.body, env)
+                self.cur_guard = g_and(keep_, g_not(c))
+                b = self.expr(e.orelse, env)
+            finally:
+                self.cur_guard = keep_
             return mk_pw([(c, a), (g_not(c), b)])
         if isinstance(e, ast.Tuple):
             return Vec([self.expr(x, env) for x in e.elts], "tuple")
